@@ -52,6 +52,8 @@ public:
 
   Buffer& operator=(const Buffer& other)
   {
+    if(this == &other)
+      return *this;
     usize size = other.bufferEnd - other.bufferStart;
     if(size > _capacity)
     {
